@@ -1,6 +1,7 @@
 mod checks;
 mod exec;
 mod genr;
+mod inbound;
 mod leak;
 mod model;
 mod monitors;
@@ -55,6 +56,30 @@ fn main() {
             };
             let code = run_check(check.as_ref(), &cfg);
             std::process::exit(code);
+        }
+        Some("shard") => {
+            // single-threaded slice of one workload (used under Miri): shard <ID> <workload> <start> <count> [seed]
+            let id = args.get(2).unwrap_or_else(|| usage());
+            let wl: usize = args.get(3).and_then(|s| s.parse().ok()).unwrap_or_else(|| usage());
+            let start: u64 = args.get(4).and_then(|s| s.parse().ok()).unwrap_or(0);
+            let count: u64 = args.get(5).and_then(|s| s.parse().ok()).unwrap_or(10);
+            let seed: u64 = args.get(6).and_then(|s| s.parse().ok()).unwrap_or(1);
+            let check = all.iter().find(|c| c.id() == id).expect("unknown check");
+            let mut evals = 0u64;
+            let mut bad = 0u64;
+            for i in start..start + count {
+                let out = run_guarded(check.as_ref(), wl, seed, i, Tier::Quick, false);
+                evals += out.evaluations;
+                for v in &out.violations {
+                    println!("SHARD-VIOLATION {} :: {}", v.sig, v.msg);
+                    bad += 1;
+                }
+                if let Some(m) = &out.inconclusive {
+                    println!("SHARD-INCONCLUSIVE {}", m);
+                }
+            }
+            println!("SHARD-DONE id={} workload={} cases={}..{} evaluations={} violations={}", id, wl, start, start + count, evals, bad);
+            std::process::exit(if bad == 0 { 0 } else { 1 });
         }
         Some("replay") => {
             let path = args.get(2).unwrap_or_else(|| usage());
